@@ -93,9 +93,9 @@ PROPS = {
         "title": "CborLen is exact",
         "bounds": "built-ins: every C01 row, all values; every Token variant (payload <= 4 bytes); derived: the schema family of harness/derive/gen.py (29 rows crossing array/map, "
                   "gaps, permutation, optionals in every position, tags at every level, transparent, skip, bytes codec, index_only, nesting), all values x presence combinations symbolic",
-        "outside": "structs with >= 24 fields (CBMC runs out of memory on the 25-field schema; the map-header defect there was found by reading and is demonstrated natively), custom has_nil codecs, generics",
+        "outside": "structs with >= 24 fields (CBMC runs out of memory on the 25-field schema; the map-header defect there was found by reading and is demonstrated natively); generics / borrowing / custom nil-aware codecs beyond the hand-written instances of harness/derive/src/extra.rs",
         "assumptions": [],
-        "groups": [core({"quick": ["::q::c07", "c07::c07_tok"], "thorough": ["::c07", "c07::c07_tok"]}), derive({"quick": ["::q::c07"], "thorough": ["::c07"]})],
+        "groups": [core({"quick": ["::q::c07", "c07::c07_tok"], "thorough": ["::c07", "c07::c07_tok"]}), derive({"quick": ["::q::c07", "extra::c08_q_"], "thorough": ["::c07", "extra::c08_q_"]})],
     },
     "C08": {
         "title": "derived Encode emits the documented wire format",
@@ -103,7 +103,7 @@ PROPS = {
                   "(minicbor-derive/src/lib.rs 'CBOR encoding'); rename/permutation independence through the PlainR pair of C10",
         "outside": "schemas outside the family; >= 24 fields; convention chosen where the documentation is silent: an absent tagged optional inside an array is written as tag(null)",
         "assumptions": [],
-        "groups": [derive({"quick": ["::q::c08"], "thorough": ["::c08"]})],
+        "groups": [derive({"quick": ["::q::c08", "extra::c08_q_"], "thorough": ["::c08", "extra::c08_q_"]})],
     },
     "C09": {
         "title": "derived round trip",
@@ -111,9 +111,9 @@ PROPS = {
                   "argument bytes symbolic + a symbolic suffix byte: decoded value == value denoted, position == item end; negative: wrong tag (all other 16-bit tags), missing tag, missing "
                   "mandatory field, unknown variant => error of the documented class. Round trip through the real encoder follows with C08 (encoder output is one of these layouts)",
         "outside": "encode->decode in ONE query (symbolic cursor after variable-width heads: > 300 s per schema, abandoned); in-head values other than the sampled constants 0/1/22/23; "
-                  "borrowing fields (&str, Cow); generic parameters",
+                  "Cow fields with #[b] (need alloc); generics / borrowing / custom nil codecs beyond the hand-written instances (extra.rs)",
         "assumptions": ["Decoder::skip replaced by the R3 model (C06 proves skip == R3); on a lone break byte the model consumes it as the real skip does"],
-        "groups": [derive({"quick": ["::q::c09_", "::q::c08"], "thorough": ["::c09_", "::c08"]})],
+        "groups": [derive({"quick": ["::q::c09_", "::q::c08", "extra::c0"], "thorough": ["::c09_", "::c08", "extra::c0"]})],
     },
     "C10": {
         "title": "derived codecs are forward/backward compatible",
